@@ -4,7 +4,7 @@
 From Coq Require Import List NArith Bool String Lia.
 From Verif Require Import Lib.Bytes Sni.Wire Sni.WireProofs Sni.WireGen Gen.WireSchema.
 From Verif Require Import Sni.Hello Sni.Stream Sni.StreamClose Sni.ReadBuf Sni.ReadBufProofs
-  Sni.ReadHold Sni.ReadHoldProofs Sni.PendingAge Sni.PendingAgeProofs Sni.TunnelCtx
+  Sni.ReadHold Sni.ReadHoldProofs Sni.PendingAge Sni.PendingAgeProofs Sni.TunnelCtx Sni.SideDeadline
   Gen.StreamConsts Gen.HelloConsts.
 Import ListNotations.
 Local Open Scope N_scope.
@@ -62,6 +62,11 @@ Local Open Scope string_scope.
     of the RPC path are the known ones: the 1 MiB cap of a read request.  A new
     bound - a window, a cap, a pool size - shows up here, and the streams size
     themselves along the emitted values. *)
+(** sideConn.applyWriteDeadline passes the recorded deadline to the websocket
+    whatever it is (no condition on it, no early return). *)
+Lemma gen_sideconn_deadline_applied_unconditionally : gen_sideconn_deadline_unconditional = true.
+Proof. reflexivity. Qed.
+
 (** The context a tunnel keeps is its own (never done), and hostConn derives
     no cancellable / timeout context. *)
 Lemma gen_tunnel_ctx_own : origin_of gen_tunnel_ctx_origin = Some CtxOwn /\ gen_hostconn_ctx_derivations = [].
